@@ -1,12 +1,26 @@
-(* Proofs/GenAgreeConcat.v — the registry table regenerated from the Go sources
-   (Gen/ConcatTable.v, written by tools/go2v on every run) is the table the model and the
-   theorems of C14 use (Model/ConcatTable.v). A changed registry breaks these proofs. *)
-From Eino Require Import Base.Util Model.ConcatTable.
-From Eino Require Gen.ConcatTable.
+(* Proofs/GenAgreeConcat.v — the tables regenerated from the Go sources (Gen/ConcatTable.v,
+   Gen/ConcatMsgTable.v, written by tools/go2v on every run) are the tables the models and
+   the theorems of C14 were written from (Model/ConcatTable.v, Model/ConcatMsgTable.v).
+   A changed registry, a new / removed struct field, or a field that ConcatMessages /
+   concatToolCalls treats differently breaks these proofs. *)
+From Eino Require Import Base.Util Model.ConcatTable Model.ConcatMsgTable.
+From Eino Require Gen.ConcatTable Gen.ConcatMsgTable.
 
 Theorem gen_table_agrees : Gen.ConcatTable.table = Model.ConcatTable.table.
 Proof. reflexivity. Qed.
 
 Theorem gen_schema_registrations_agree :
   Gen.ConcatTable.schema_registrations = Model.ConcatTable.schema_registrations.
+Proof. reflexivity. Qed.
+
+Theorem gen_message_fields_agree :
+  Gen.ConcatMsgTable.message_fields = Model.ConcatMsgTable.message_fields.
+Proof. reflexivity. Qed.
+
+Theorem gen_message_handling_agrees :
+  Gen.ConcatMsgTable.message_handling = Model.ConcatMsgTable.message_handling.
+Proof. reflexivity. Qed.
+
+Theorem gen_toolcall_handling_agrees :
+  Gen.ConcatMsgTable.toolcall_handling = Model.ConcatMsgTable.toolcall_handling.
 Proof. reflexivity. Qed.
